@@ -261,12 +261,12 @@ def build_case(desc):
     return {'spec0': spec0, 'rows': rows, 'edits': edits}
 
 
-def observe(desc):
+def observe(desc, with_p=False):
     """Shared with C18: (case, obs) or (None, None) when not a valid case."""
     case = build_case(desc)
     if case is None or len(case['edits']) < 1:
         return None, None
-    obs = seqpaths.run_paths(case)
+    obs = seqpaths.run_paths(case, with_p=with_p)
     return case, obs
 
 
@@ -303,8 +303,70 @@ def case_evidence(case, obs):
     }
 
 
+def pipeline_evidence(obs):
+    """Mechanism evidence from the pipeline's own decisions: did it treat
+    the target of a RenameModel as a model to create, did the pending filter
+    remove mutations."""
+    hist = obs['history']
+    renamed_to = set()
+    for i, sp in enumerate(hist[1:]):
+        for m in sp.get('app1', {}):
+            if m not in hist[i].get('app1', {}):
+                renamed_to.add('app1.%s' % m)
+    return {'p_rename_target_new_model': bool(
+                renamed_to & set(obs.get('p_new_models') or [])),
+            'p_filter_dropped': bool(obs.get('p_filter_dropped'))}
+
+
+def pipeline_items(obs):
+    """Path P (real Evolver pipeline) against path B (bare AppMutator, same
+    optimiser) and, where B failed, against path A."""
+    items, stats = [], {}
+    pe, be = obs.get('p_error'), obs.get('b_error')
+    if 'p_error' not in obs:
+        return items, stats
+    stats['pipeline_runs'] = 1
+    if pe:
+        it = dict(pe)
+        it['type'] = 'P_ERROR'
+        it['b_failed'] = bool(be)
+        core = (be or {}).get('msg', '')[:60]
+        it['same_as_b'] = bool(be) and bool(core) and core in (
+            pe.get('msg') or '')
+        it.update(pipeline_evidence(obs))
+        items.append(it)
+        return items, stats
+    if be is None and 'b_snap' in obs:
+        stats['pipeline_compared'] = 1
+        for it in seqpaths.compare(obs['p_snap'], obs['p_sig'],
+                                   pipe_only(obs['b_snap']), obs['b_sig'],
+                                   'P_vs_B'):
+            items.append(it)
+    else:
+        stats['pipeline_compared_with_a'] = 1
+        for it in seqpaths.compare(obs['p_snap'], obs['p_sig'],
+                                   pipe_only(obs['a_snap']), obs['a_sig'],
+                                   'P_vs_A'):
+            it['b_failed'] = True
+            items.append(it)
+    # mechanism evidence (pipeline only)
+    ev = pipeline_evidence(obs)
+    for it in items:
+        it.update(ev)
+    want = [('app1', 'e1')] + ([('app1', 'e2')]
+                                if len(obs['history']) - 1 > 2 else [])
+    if [tuple(x) for x in obs.get('p_labels') or []] != want:
+        items.append({'type': 'P_LABELS', 'got': obs.get('p_labels'),
+                      'expected': want})
+    return items, stats
+
+
+def pipe_only(snap):
+    return {t: e for t, e in snap.items() if not t.startswith('django_')}
+
+
 def run_case(desc):
-    case, obs = observe(desc)
+    case, obs = observe(desc, with_p=True)
     if case is None:
         return {'key': S.canon(desc), 'nontrivial': False, 'items': [],
                 'stats': {'invalid_sequences': 1}, 'case': None}
@@ -338,6 +400,9 @@ def run_case(desc):
                                        obs['b_snap'], obs['b_sig'],
                                        'B2_vs_B'):
                 items.append(it)
+    pitems, pstats = pipeline_items(obs)
+    items += pitems
+    stats.update(pstats)
     for d in obs.get('definitions_mutated') or []:
         d = dict(d)
         d['type'] = 'DEFINITION_MUTATED'
